@@ -513,6 +513,15 @@ func Files() []FileSpec {
 			o.field("ins", 3, Rep, kindByName("message"), fopt{typeName: "Outer.Inner"})
 			p := b.msg("Plain")
 			p.field("y", 1, Opt, kindByName("string"), fopt{})
+			// three levels: Top -> Outer (nothing required itself) -> Inner (required): the verdict crosses a level that has
+			// nothing to check of its own, in singular, repeated, map-value and oneof positions
+			tp := b.msg("Top")
+			tp.field("o", 1, Opt, kindByName("message"), fopt{typeName: "Outer"})
+			tp.field("os", 2, Rep, kindByName("message"), fopt{typeName: "Outer"})
+			tp.mapField("m", 3, kindByName("string"), kindByName("message"), "Outer")
+			ti := tp.oneofDecl("pick")
+			tp.field("oo", 4, Opt, kindByName("message"), fopt{typeName: "Outer", oneof: ti})
+			tp.field("name", 5, Opt, kindByName("string"), fopt{})
 		}})
 	out = append(out, FileSpec{Name: "p3imp", Syntax: "proto3", Deps: []string{"p3"}, Cells: "proto3: enum and message types imported from another Go package in singular, repeated, map-value and oneof positions",
 		build: func(b *fb) {
